@@ -41,9 +41,41 @@ def strip_ptr(t):
             return t
 
 
+RAW_SLICE_CTORS = ("std::ptr::slice_from_raw_parts", "std::slice::from_raw_parts")
+
+
+def raw_slice_parts(t):
+    """(pointer term, length term) if t is a (fat pointer / reference to a) slice made from raw parts, else None."""
+    while isinstance(t, tuple) and t and t[0] in ("cast", "ref", "deref"):
+        t = t[1]
+    if isinstance(t, tuple) and t and t[0] == "call" and t[1].startswith(RAW_SLICE_CTORS) and len(t[2]) == 2:
+        return t[2][0], t[2][1]
+    return None
+
+
+def through_raw_slice(t):
+    """The thin pointer / the length of a slice made from raw parts are the parts it was made from:
+    `slice_from_raw_parts_mut(p, n).cast()` is p, `.len()` of it is n."""
+    t0 = t
+    while isinstance(t0, tuple) and t0 and t0[0] == "cast":
+        t0 = t0[1]
+    if isinstance(t0, tuple) and t0 and t0[0] == "call" and len(t0[2]) == 1:
+        last = t0[1].split("::")[-1]
+        parts = raw_slice_parts(t0[2][0])
+        if parts is not None:
+            if last in ("cast", "as_ptr", "as_mut_ptr"):
+                return parts[0]
+            if last == "len":
+                return parts[1]
+    parts = raw_slice_parts(t) if isinstance(t, tuple) and t and t[0] == "cast" else None
+    if parts is not None:
+        return parts[0]       # `fat as *mut u8`
+    return t
+
+
 def self_field(t, name):
     """True if t is field `name` of *self (param 0)."""
-    t = strip_ptr(t)
+    t = strip_ptr(through_raw_slice(t))
     if t[0] != "field" or t[2] != name:
         return False
     base = t[1]
@@ -287,9 +319,18 @@ def check_config(ctx, F, tag):
     drop = F.body(DROP)
     dwhere = loc(drop.raw["span"])
     mun = [(bi, t) for bi, t in drop.calls() if callee_name(t) == "libc::munmap"]
+    # a path may leave without munmap only behind a test that the mapping has no elements (nothing is mapped then)
+    empty_edges = []
+    for u, v, f in edge_facts(drop):
+        if f[0] == "cmp" and f[1] == "Eq" and ((self_field(f[2], "len") and strip_casts(f[3])[:2] == ("const", 0)) or (self_field(f[3], "len") and strip_casts(f[2])[:2] == ("const", 0))):
+            empty_edges.append(v)
+        if f[0] == "bool" and f[2] is True and f[1][0] == "call" and f[1][1].split("::")[-1] == "is_empty" and \
+                (raw_slice_parts(f[1][2][0]) is not None and self_field(raw_slice_parts(f[1][2][0])[1], "len") or strip_ptr(f[1][2][0])[:2] == ("param", 0) or
+                 (strip_ptr(f[1][2][0])[0] in ("ref", "deref") and strip_ptr(f[1][2][0])[1][:2] == ("param", 0))):
+            empty_edges.append(v)
     ctx.ob("C18.R2.munmap-on-every-path", DROP + tag, dwhere,
-           len(mun) >= 1 and must_pass_through(drop, 0, [bi for bi, _ in mun]), "must-pass-through",
-           "%d munmap call(s); every path entry->return passes one" % len(mun))
+           len(mun) >= 1 and must_pass_through(drop, 0, [bi for bi, _ in mun] + empty_edges), "must-pass-through",
+           "%d munmap call(s); every path entry->return passes one%s" % (len(mun), " (or leaves behind a test that the map has no elements)" if empty_edges else ""))
     for bi, t in mun:
         a0 = drop.term_of_operand(t["args"][0])
         a1 = drop.term_of_operand(t["args"][1])
@@ -299,6 +340,9 @@ def check_config(ctx, F, tag):
         if len_field_holds == "words":
             if a1[0] == "call" and a1[1] == "bits::words_to_bytes" and self_field(a1[2][0], "len"):
                 okb = True
+            if a1[0] == "call" and a1[1] == "std::mem::size_of_val" and raw_slice_parts(a1[2][0]) is not None and self_field(raw_slice_parts(a1[2][0])[1], "len") and \
+                    len(a1) > 3 and a1[3] and a1[3][0].startswith("["):
+                okb = True      # size_of_val::<[u64]> of the slice itself (size_of_val of the fat pointer is 16, whatever the length)
             if a1[0] == "bin" and a1[1] == "Mul":
                 x, y = a1[2], a1[3]
                 for p, q in ((x, y), (y, x)):
@@ -315,7 +359,7 @@ def check_config(ctx, F, tag):
     # ---- R3 slices
     for name in (ASREF, ASMUT):
         b = F.body(name)
-        frp = [(bi, t) for bi, t in b.calls() if callee_name(t).startswith("std::slice::from_raw_parts")]
+        frp = [(bi, t) for bi, t in b.calls() if callee_name(t).startswith(RAW_SLICE_CTORS)]
         ok = len(frp) == 1
         detail = "%d from_raw_parts calls" % len(frp)
         if ok:
